@@ -215,6 +215,9 @@ func (ex *Exec) callBuiltin(g *Goroutine, fr *Frame, b *builtinTarget, args []Va
 		case string:
 			return ex.i64(int64(len(x)))
 		case *SymStr:
+			if x.Table == nil {
+				return ex.i64(int64(len(x.Bytes)))
+			}
 			panic(unsupported("len of symbolic string"))
 		case Slice:
 			return x.lenOr0(ex)
